@@ -17,6 +17,7 @@ mod replace;
 mod dwarf;
 mod features;
 mod gate;
+mod maps;
 
 fn main() {
     let args: Vec<String> = std::env::args().collect();
@@ -46,6 +47,7 @@ fn main() {
         "dwarf" => dwarf::dwarf(&args[2..]),
         "features" => features::features(&args[2..]),
         "gate" => gate::gate(&args[2..]),
+        "maps" => maps::maps(&args[2..]),
         other => {
             eprintln!("unknown subcommand {other}");
             exit(2)
